@@ -10,7 +10,10 @@ Supported subset: straight-line assignments / augmented assignments / return of 
 expressions (+ - * / **, unary minus, numeric literals, names, numpy.pi, numpy.sqrt/exp/log10/abs/cos/sin,
 scipy.special.gamma/kv, float(), numpy.float32() [identity on the exact model], x[..., k] component
 selection on declared vec params, `.sum(...)` over declared array params, module-level literal-table
-lookups TABLE[key][k] with `key` a declared row parameter, calls to other translated functions).
+lookups TABLE[key][k] with `key` a declared row parameter, calls to other translated functions,
+`numpy.where(a <cmp> b, x, y)` with one comparison `== != <= >=` [-> `if … then x else y`; equality is rendered
+through `≤` both ways, which is IEEE `==` at Float (false on NaN) and `=` on a linear order; the definition and
+every translated function calling it then also take `[LE K] [DecidableLE K]`]).
 Anything else raises TranslateError: the caller treats that as "tie broken", never as a pass.
 """
 import ast
@@ -71,6 +74,7 @@ UNARY_FUNCS = {"sqrt": "Transc.sqrt", "exp": "Transc.exp", "log10": "Transc.log1
                "abs": "Transc.abs", "cos": "Transc.cos", "sin": "Transc.sin", "gamma": "Transc.gamma",
                "absolute": "Transc.abs"}
 IDENTITY_FUNCS = {"float", "float32", "float64"}
+ORDERED = set()     # lean names of the definitions that take [LE K] [DecidableLE K] (filled by translate())
 
 
 def lit(v):
@@ -98,6 +102,7 @@ class FuncTranslator:
         self.kinds = dict(opts.get("kinds", {}))
         self.locals = set()
         self.in_sum = False
+        self.ordered = False        # uses a comparison (directly or through a translated callee)
 
     # ---- expressions
     def tail(self, node):
@@ -168,6 +173,23 @@ class FuncTranslator:
             return "%s_%d" % (e.value.slice.id, e.slice.value)
         raise TranslateError("subscript %s" % ast.dump(e))
 
+    def compare(self, c):
+        """a single comparison `a <op> b` as a decidable proposition over `[LE K] [DecidableLE K]`"""
+        if not (isinstance(c, ast.Compare) and len(c.ops) == 1 and len(c.comparators) == 1):
+            raise TranslateError("condition of numpy.where must be a single comparison")
+        a, b = self.expr(c.left), self.expr(c.comparators[0])
+        self.ordered = True
+        op = c.ops[0]
+        if isinstance(op, ast.Eq):
+            return "(%s ≤ %s ∧ %s ≤ %s)" % (a, b, b, a)
+        if isinstance(op, ast.NotEq):
+            return "(¬ (%s ≤ %s ∧ %s ≤ %s))" % (a, b, b, a)
+        if isinstance(op, ast.LtE):
+            return "(%s ≤ %s)" % (a, b)
+        if isinstance(op, ast.GtE):
+            return "(%s ≤ %s)" % (b, a)
+        raise TranslateError("comparison %s (only == != <= >= are translated)" % type(op).__name__)
+
     def call(self, e):
         f = e.func
         # (expr).sum(...)
@@ -184,6 +206,8 @@ class FuncTranslator:
                 self.in_sum = False
             return "(sumTo n (fun i => %s))" % body
         name = self.tail(f)
+        if name == "where" and isinstance(f, ast.Attribute) and len(e.args) == 3 and not e.keywords:
+            return "(if %s then %s else %s)" % (self.compare(e.args[0]), self.expr(e.args[1]), self.expr(e.args[2]))
         if name in IDENTITY_FUNCS and len(e.args) == 1 and not e.keywords:
             return self.expr(e.args[0])
         if name in UNARY_FUNCS and len(e.args) == 1 and not e.keywords:
@@ -192,6 +216,8 @@ class FuncTranslator:
             return "(Transc.kv %s %s)" % (self.expr(e.args[0]), self.expr(e.args[1]))
         if isinstance(f, ast.Name) and name in self.known:
             lean_name, params = self.known[name]
+            if lean_name in ORDERED:
+                self.ordered = True
             bound = {}
             for p, a in zip(params, e.args):
                 bound[p[0]] = a
@@ -286,6 +312,7 @@ def module_tables(tree, names):
 def translate(repo=REPO):
     """returns (formulas_lean, dispatch_lean, meta) or raises TranslateError"""
     defs, meta, table_src = [], {}, []
+    ORDERED.clear()
     for mod in SPEC:
         path = os.path.join(repo, mod["module"])
         with open(path) as fh:
@@ -341,6 +368,9 @@ def translate(repo=REPO):
             lines, ret = ft.body()
             sig, layout = [], []
             needs_n = any(k == "array" for (_, k, _) in params)
+            if ft.ordered:
+                ORDERED.add(lean_name)
+                sig.append("[LE K] [DecidableLE K]")
             if needs_n:
                 sig.append("(n : Nat)")
             for (p, kind, _) in params:
@@ -360,7 +390,7 @@ def translate(repo=REPO):
             defs.append("/-- generated from `%s:%s` (line %d) -/\ndef %s %s : K :=\n%s"
                         % (mod["module"], fn, fdef.lineno, lean_name, " ".join(sig), body))
             meta[lean_name] = {"module": mod["module"], "python": fn, "layout": layout,
-                               "extract": opts.get("extract"), "line": fdef.lineno}
+                               "extract": opts.get("extract"), "line": fdef.lineno, "ordered": ft.ordered}
     header = ("/- GENERATED by harness/translate_formulas.py from /repo on every run. DO NOT EDIT. -/\n"
               "import AoVerif.Model.Scalar\n\nnamespace AoVerif.Gen\n\n"
               "variable {K : Type} [Add K] [Sub K] [Mul K] [Div K] [Neg K] [NatCast K] [OfScientific K] [HPow K Nat K] [Transc K]\n\n")
